@@ -1890,12 +1890,12 @@ def gen_cases(rng, tier, scale=1.0):
                                   {"op": "setattr", "field": fl[1], "value": v1}]})
     for sname in A_SHAPES:
         for _ in range(1 if quick else reps_a):
-            add("A", sname, 2, max_pre=max_pre, cap=80 if quick else 650)
+            add("A", sname, 2, max_pre=max_pre, cap=80 if quick else 380)
         if sname == "array_int" or not quick:
-            add("A", sname, 3, max_pre=2, cap=80 if quick else 600)
+            add("A", sname, 3, max_pre=2, cap=80 if quick else 300)
     for sname in A2_SHAPES:
         for _ in range(1 if quick else reps_a):
-            add("A", sname, 2, max_pre=max_pre, cap=70 if quick else 500)
+            add("A", sname, 2, max_pre=max_pre, cap=70 if quick else 200)
         if not quick:
             add("A", sname, 3, max_pre=2, cap=400)
     # the same correspondence at BYTECODE granularity: yield points = every attribute / item / call instruction of the site
@@ -1904,15 +1904,15 @@ def gen_cases(rng, tier, scale=1.0):
     flat_canon = [c for c in CANONICAL if c[0] not in A3_SHAPES]   # own-name reads are line-level events only
     for sname, v0, v1 in (rng.sample(flat_canon, 4) if quick else flat_canon):
         fl = pick_fields(rng, sname, 2)
-        cases.append({"stream": "A", "shape": sname, "sseed": 1, "max_pre": 1 if quick else 2, "cap": 120 if quick else 300,
+        cases.append({"stream": "A", "shape": sname, "sseed": 1, "max_pre": 1 if quick else 2, "cap": 120 if quick else 150,
                       "yield": "siteops",
                       "threads": [{"op": "setattr", "field": fl[0], "value": v0},
                                   {"op": "setattr", "field": fl[1], "value": v1}]})
     for sname in (rng.sample(A_SHAPES + A2_SHAPES, 2) if quick else A_SHAPES + A2_SHAPES):
-        add("A", sname, 2, max_pre=1 if quick else 2, cap=120 if quick else 150, **{"yield": "siteops"})
+        add("A", sname, 2, max_pre=1 if quick else 2, cap=120 if quick else 100, **{"yield": "siteops"})
     for sname in A3_SHAPES:
         for _ in range(1 if quick else reps_a):
-            add("A", sname, 2, max_pre=max_pre, cap=70 if quick else 500)
+            add("A", sname, 2, max_pre=max_pre, cap=70 if quick else 200)
     for sname, v0, v1 in CANONICAL_E:
         fl = pick_fields(rng, sname, 2)
         cases.append({"stream": "E", "shape": sname, "sseed": 1, "max_pre": 2, "cap": 150 if quick else 400, "yield": "sitelines",
@@ -1922,7 +1922,7 @@ def gen_cases(rng, tier, scale=1.0):
     for sname in (rng.sample(E_SHAPES, 10) if quick else E_SHAPES):
         for _ in range(reps_e):
             flat = sname in ("anyof", "oneof", "allof", "notfield") or sname.startswith("shared_")
-            add("E", sname, 2, max_pre=max_pre, cap=50 if quick else 320, **({"yield": "sitelines"} if flat else {}))
+            add("E", sname, 2, max_pre=max_pre, cap=50 if quick else 200, **({"yield": "sitelines"} if flat else {}))
     # twin declarations: every thread on a DIFFERENT declaration (other field / other class) of the same spelling
     def add_twin(stream, sname, n, directed=None, **kw):
         decls = roster(sname)
@@ -1949,16 +1949,16 @@ def gen_cases(rng, tier, scale=1.0):
         vk = set(shape(sname).extra["vk"].values())
         if any(k.startswith("opt-") for k in vk):
             # directed: one thread passes an explicit None, the other None / a value the earlier options reject
-            add_twin("E", sname, 2, directed=[None, None], max_pre=2, cap=45 if quick else 250, **ykw)
+            add_twin("E", sname, 2, directed=[None, None], max_pre=2, cap=45 if quick else 150, **ykw)
             if not quick or rng.random() < 0.5:
-                add_twin("E", sname, 2, directed=[None, 2.5], max_pre=2, cap=45 if quick else 250, **ykw)
+                add_twin("E", sname, 2, directed=[None, 2.5], max_pre=2, cap=45 if quick else 150, **ykw)
         for _ in range(max(1, int((1 if quick else 2) * scale)) if (not quick or rng.random() < 0.5) else 0):
-            add_twin("E", sname, 2, max_pre=max_pre, cap=45 if quick else 250, **ykw)
+            add_twin("E", sname, 2, max_pre=max_pre, cap=45 if quick else 150, **ykw)
         if not quick and any(k.startswith("opt-") for k in vk):
             add_twin("E", sname, 3, max_pre=2, cap=200, **ykw)
     for sname in TWIN_A_SHAPES:
         for _ in range(max(1, int((1 if quick else 2) * scale))):
-            add_twin("A", sname, 2, max_pre=max_pre, cap=70 if quick else 400)
+            add_twin("A", sname, 2, max_pre=max_pre, cap=70 if quick else 250)
     for sname in (rng.sample(TWIN_SHAPES, 4) if quick else TWIN_SHAPES):
         add_twin("B", sname, 2, max_pre=max_pre, nsched=14 if quick else 30)
     # SerializableField items in collections: a constructing / assigning thread against a deserializing one (the
@@ -1986,10 +1986,10 @@ def gen_cases(rng, tier, scale=1.0):
         cases.append(c)
 
     for sname in SER_SHAPES:
-        add_ops("E", sname, ["construct", "deserialize"], max_pre=2, cap=60 if quick else 300)
+        add_ops("E", sname, ["construct", "deserialize"], max_pre=2, cap=60 if quick else 200)
         if not quick or rng.random() < 0.5:
             add_ops("E", sname, [rng.choice(["setattr", "construct", "deserialize"]) for _ in range(2)], max_pre=max_pre,
-                    cap=45 if quick else 300)
+                    cap=45 if quick else 200)
         if not quick:
             add_ops("E", sname, ["deserialize", "deserialize", "construct"], max_pre=2, cap=200)
     for sname in (rng.sample(SER_SHAPES, 3) if quick else SER_SHAPES):
@@ -2012,7 +2012,7 @@ def gen_cases(rng, tier, scale=1.0):
     # the field implementations / generic __set__, _validate (table independent) + line-level sampling
     for sname in ENUM_SHAPES:
         add_ops("E", sname, [rng.choice(["setattr", "construct"]) for _ in range(2)], max_pre=1 if quick else 2,
-                cap=70 if quick else 300, **{"yield": "fieldlines"})
+                cap=70 if quick else 200, **{"yield": "fieldlines"})
         if not quick or rng.random() < 0.5:
             add_ops("B", sname, [rng.choice(["setattr", "construct", "deserialize"]) for _ in range(3 if not quick else 2)],
                     max_pre=max_pre, nsched=14 if quick else 40)
@@ -2130,14 +2130,14 @@ def gen_cases(rng, tier, scale=1.0):
     # (quick) / two (thorough); oracle only
     ops_shapes = [x for x in A_SHAPES + A2_SHAPES if shape(x).racy or x in ("array_two_fields", "anyof", "immset")]
     for sname in (rng.sample(ops_shapes, 3) if quick else ops_shapes):
-        add("E", sname, 2, max_pre=1 if quick else 2, cap=150 if quick else 200, **{"yield": "siteops"})
+        add("E", sname, 2, max_pre=1 if quick else 2, cap=150 if quick else 120, **{"yield": "siteops"})
     for sname in (rng.sample(COLD_SHAPES, 1) if quick else COLD_SHAPES):
         for ops in ([["deserialize", "deserialize"]] if quick else [["deserialize", "deserialize"], ["serialize", "serialize"]]):
             add_ops("E", sname, ops, max_pre=1, cap=400, **{"yield": "siteops"})
-    reps_b = max(1, int((1 if quick else 4) * scale))
+    reps_b = max(1, int((1 if quick else 3) * scale))
     for sname in (rng.sample(ALL_SHAPES, 11) if quick else ALL_SHAPES):
         for _ in range(reps_b):
-            add("B", sname, 3 if rng.random() < 0.2 else 2, max_pre=max_pre, nsched=14 if quick else 35)
+            add("B", sname, 3 if rng.random() < 0.2 else 2, max_pre=max_pre, nsched=14 if quick else 25)
     prng = random.Random(len(cases))     # own generator: the probes do not shift the case stream
     for c in cases:
         if c["stream"] != "A" and (not quick or prng.random() < 0.12):
